@@ -21,12 +21,17 @@ structure Inv (s : St) : Prop where
   bm : ∀ i, bmOffBlk s ≤ i → i < bmOffBlk s + bmLenBlk s → bit s.bits i = true
   /-- the bitmap lies behind the header and inside the range it describes -/
   hb : hdrBlk s ≤ bmOffBlk s
-  bm_in : bmOffBlk s + bmLenBlk s ≤ nbits s
+  bm_in : bmOffBlk s + bmLenBlk s < nbits s
   bmoff_al : s.bmoff % bsz s = 0
   bmlen_al : s.bmlen % bsz s = 0
   bmlen_pos : 0 < bmLenBlk s
   /-- the page holds at least one block -/
   au : 0 < aunitBlk s
+  /-- the page is a whole number of blocks -/
+  aunit_al : s.aunit % bsz s = 0
+  /-- the bitmap starts on a page boundary, the header ends on a block boundary -/
+  bmoff_pg : s.bmoff % s.aunit = 0
+  hdr_al : s.hdrlen % bsz s = 0
 
 /-- the geometry of the file is unchanged: everything but index, cache, bitmap content, file size and statistics -/
 structure Frame (s s' : St) : Prop where
